@@ -331,16 +331,16 @@ let handle_io (toks : string list) : string =
   | "ODS" :: input :: rest ->
     (* ODS input reply... / wsched... : the bridge in front of a scripted bus (one scripted answer per forwarded message) *)
     let (replies, ws) = split_at "/" rest in
-    let p = ref { pt_in = { r_content = bytes_of_hex input; r_sched = [] };
-                  pt_out = { w_out = []; w_sched = List.map wr_ev_of_str ws } } in
-    let outs = List.map (fun rs ->
-        let answer = (match rs with "N" -> None | s -> Some (msg_of_str s)) in
-        match odk_step_replied !p (fun _ -> answer) with
-        | None -> "FUEL"
-        | Some ((res, p'), fwd) -> p := p';
-          Printf.sprintf "%s fwd=%s" (match res with Ok _ -> "OK" | Err (OComm _) -> "COMM" | Err OPanic -> "PANIC")
-            (match fwd with None -> "-" | Some m -> str_msg m)) replies in
-    Printf.sprintf "%s | %s | %s" (String.concat " ; " outs) (hex_of_bytes !p.pt_out.w_out) (hex_of_bytes !p.pt_in.r_content)
+    let p = { pt_in = { r_content = bytes_of_hex input; r_sched = [] };
+              pt_out = { w_out = []; w_sched = List.map wr_ev_of_str ws } } in
+    let answers = List.map (fun rs -> match rs with "N" -> None | s -> Some (msg_of_str s)) replies in
+    (match odk_run p answers with
+     | None -> "FUEL"
+     | Some (results, p') ->
+       let outs = List.map (fun (res, fwd) ->
+           Printf.sprintf "%s fwd=%s" (match res with Ok _ -> "OK" | Err (OComm _) -> "COMM" | Err OPanic -> "PANIC")
+             (match fwd with None -> "-" | Some m -> str_msg m)) results in
+       Printf.sprintf "%s | %s | %s" (String.concat " ; " outs) (hex_of_bytes p'.pt_out.w_out) (hex_of_bytes p'.pt_in.r_content))
   | "OD" :: k :: rest ->
     let (signs, rest) = parse_signs (int_of_string k) rest in
     let rest = (match rest with "|" :: r -> r | r -> r) in
